@@ -63,6 +63,7 @@ static inline Txt symTxt(unsigned minlen = 0)
     t.c[0] = MAXLEN > 0 ? symChar() : 0; t.c[1] = MAXLEN > 1 ? symChar() : 0; t.c[2] = MAXLEN > 2 ? symChar() : 0;
     return t;
 }
+static inline Txt litTxt(const char *s) { Txt t; t.len = 0; t.c[0] = t.c[1] = t.c[2] = 0; for (unsigned k = 0; k < 3 && s[k]; k++) { t.c[k] = (unsigned char)s[k]; t.len++; } return t; }
 static inline QString qstr(const Txt &t) { QString q; vp_c20_string(&q, t.len, t.c[0], t.c[1], t.c[2]); return q; }
 // i;octet collation: code unit by code unit, a proper prefix sorts first (all units are ASCII here)
 static inline int txtCmp(const Txt &a, const Txt &b)
